@@ -6,6 +6,7 @@ CONSTANTS
   AllowDupStart = FALSE
   AllowSilentInit = FALSE
   AllowRestartRace = FALSE
+  AllowLateStart = FALSE
   AllowDoubleError = FALSE
   SInsts = {}
   SIds = {}
@@ -32,6 +33,7 @@ CONSTANTS
   FixDup = TRUE
   FixDel = TRUE
   FixInit = TRUE
+  FixLate = TRUE
   PreAcked = TRUE
   Bursts = FALSE
   Sync = FALSE
